@@ -21,6 +21,10 @@ from translate import footprint
 def run(prop, tier, seed, replay=None):
     V = report.Verdict(prop, tier, seed, "proof")
     V.assumptions = [
+        "members of the shared object handed by a const operation to a callee that may store through that parameter (interprocedural, translate/paramwrites.py, "
+        "const_cast included) count as shared writes, except the polynomial constants zero/one/mOne and Extension's modulus where every store on the path is "
+        "Poly1Dom::setdegree's guarded resize: assumed unreachable because these members are stored normalised -- checked on fresh objects, copies and assignment "
+        "targets by the `norm` lines of harness/h_threads.cpp and watched by ThreadSanitizer, not proved",
         "the footprint is a syntactic over-approximation of the writes in the domain classes' own code (clang AST of the instantiated bodies, closed under calls); "
         "it does not model the C++ memory model, the process-wide allocator free lists or GMP's allocator (documented globals the property excludes)",
         "the theorem readonly_race_free is about the execution model of Model/Threads.lean (sequentially consistent shared memory, operations as functions of the memory)",
@@ -34,7 +38,7 @@ def run(prop, tier, seed, replay=None):
     except Exception as e:
         V.violation("footprint", {"obligation": "footprint extraction (translate/footprint.py)", "what": str(e)[-3000:]}, no_failing_input=True)
     L = flow.lean_stage(V, ["GivaroModel.Props.C18"], "GivaroModel/Props/C18.lean")
-    offenders = [t for t in table if footprint.claimed(t) and (t["const_writes"] or t["pointee_writes"] or
+    offenders = [t for t in table if footprint.claimed(t) and (t["const_writes"] or t["pointee_writes"] or t.get("arg_writes") or
                                                                  [s for s in t["statics"] if s not in ("local:randstate", "write:randstate", "Rational::flags")])]
     # dynamic cross-check under ThreadSanitizer
     binp = common.build_harness("h_threads", "T", cxx="clang++-14")
@@ -59,6 +63,12 @@ def run(prop, tier, seed, replay=None):
         m = re.search(r"(\S+:\d+)(?::\d+)? \(", frame)
         site = (kind_.strip(), m.group(1) if m else frame[:120])
         race_sites[site] = race_sites.get(site, 0) + 1
+    unnorm = [l for l in outs if l.startswith("norm ") and "0" in l.split(" = ")[1].split()]
+    if unnorm:
+        V.violation("impl_unnormalised_constant", {"obligation": "the polynomial constants of a domain object (zero/one/mOne, Extension's modulus) are stored normalised "
+                                                   "after construction, copy and assignment (assumption of the argNormalise column of the footprint table)",
+                                                   "what": "a const operation that hands this member to a normalising predicate will store into the shared object",
+                                                   "lines": unnorm[:8]})
     if bad:
         V.violation("impl_digest", {"obligation": "every thread obtains the sequential results", "what": "a thread's digest differs from the sequential digest",
                                     "lines": bad[:8]})
@@ -71,7 +81,7 @@ def run(prop, tier, seed, replay=None):
     if offenders and not (bad or race_sites):
         V.violation("thm_claimed_ops_readonly", {"obligation": "Givaro.Props.C18.claimed_ops_readonly",
                                                  "what": "a claimed operation writes shared state according to the regenerated footprint; no race or wrong result was observed under ThreadSanitizer",
-                                                 "functions": ["%s::%s  const_writes=%s pointee_writes=%s statics=%s" % (t["cls"], t["fn"], t["const_writes"], t["pointee_writes"], t["statics"]) for t in offenders[:20]]},
+                                                 "functions": ["%s::%s  const_writes=%s pointee_writes=%s arg_writes=%s statics=%s" % (t["cls"], t["fn"], t["const_writes"], t["pointee_writes"], t.get("arg_writes"), t["statics"]) for t in offenders[:20]]},
                     no_failing_input=True)
     lines = [l for l in outs if l.startswith("thr ")]
     cov = {
@@ -90,6 +100,8 @@ def run(prop, tier, seed, replay=None):
         "footprint_rows": len(table),
         "claimed_operations": len([t for t in table if footprint.claimed(t)]),
         "claimed_operations_with_shared_writes": len(offenders),
+        "claimed_operations_handing_a_normalised_constant_to_a_normalising_callee": len([t for t in table if footprint.claimed(t) and t.get("arg_normalise")]),
+        "normalised_constant_probes": len([l for l in outs if l.startswith("norm ")]),
         "timing_s": {"lean": round(L["t"], 1)},
     }
     V.coverage = cov
